@@ -11,7 +11,7 @@ from bounded.C11 import expected_extend, merge_labels
 KINDS = ('bonds', 'angles', 'dihedrals', 'impropers')
 
 FRAGS = [dict(n=1, seed=5, terms=False, coeffs=True, extra=False, cell=None),
-         dict(n=2, seed=6, terms=True, coeffs=True, extra=False, cell=None, kinds=['bond']),
+         dict(n=2, seed=6, terms=True, coeffs=True, extra=False, cell=None, kinds=['bond'], long=True),      # coefficient strings longer than any in the seeds' tables
          dict(n=4, seed=7, terms=True, coeffs=True, extra=False, cell=None),
          dict(n=2, seed=8, terms=True, coeffs=True, extra=True, cell=None, kinds=['bond'])]      # brings extra (CIF) columns the seeds lack
 SEEDS = [dict(n=3, seed=0, terms=True, coeffs=True, extra=False, cell='ortho'),
